@@ -280,10 +280,9 @@ fn dkim_canonicalize_headers_relaxed(headers: &str) -> String {
     fn value(h: &str, out: &mut String) {
         match h.as_bytes() {
             // Continuation lines.
-            [b'\r', b'\n', b' ' | b'\t', ..] => {
-                out.push(' ');
-                value(skip_whitespace(&h[2..]), out);
-            }
+            // Unfolding removes the CRLF only: the white space that follows it is reduced
+            // together with the white space around it.
+            [b'\r', b'\n', b' ' | b'\t', ..] => value(&h[2..], out),
             // End of header.
             [b'\r', b'\n', ..] => {
                 *out += "\r\n";
